@@ -1,7 +1,6 @@
 package props
 
 import (
-	"go/ast"
 	"go/token"
 	"go/types"
 	"strings"
@@ -58,108 +57,144 @@ func c18(c *an.Ctx) {
 	})
 
 	c.Check("R-TABLE", "scalar argument parsers: JSON assertion matches the key's kind, failure is an error, conversion goes through the key's own type", 16, func(o *an.O) {
-		pp := p.PkgSyntax(sbp)
-		an.Need(pp != nil, "package schemabuilder")
+		// SSA form of the table's closures (helpers such as a shared "assert number" function are inlined)
 		exceptions := map[string]string{
 			"uint64": "int64", // float64 -> uint64 is implementation-defined from 2^63 up; int64 is exact on the float64-exact range the property covers
 		}
+		sp := p.Pkg(sbp)
+		an.Need(sp != nil, "package schemabuilder")
+		initFn := sp.Func("init")
+		an.Need(initFn != nil, "schemabuilder package initialiser")
 		n := 0
-		for _, f := range pp.Syntax {
-			for _, d := range f.Decls {
-				gd, ok := d.(*ast.GenDecl)
-				if !ok || gd.Tok != token.VAR {
+		an.Instrs(initFn, func(i ssa.Instruction) {
+			mu, ok := i.(*ssa.MapUpdate)
+			if !ok {
+				return
+			}
+			// key: reflect.TypeOf(<value of the Go type>)
+			kc, ok := mu.Key.(*ssa.Call)
+			if !ok || len(kc.Call.Args) != 1 {
+				return
+			}
+			if f := an.CalleeFunc(kc.Common()); f == nil || f.Name() != "TypeOf" || f.Pkg() == nil || f.Pkg().Path() != "reflect" {
+				return
+			}
+			mi, ok := kc.Call.Args[0].(*ssa.MakeInterface)
+			if !ok {
+				return
+			}
+			// value: &argParser{FromJSON: closure}
+			al, ok := mu.Value.(*ssa.Alloc)
+			if !ok {
+				return
+			}
+			if nn := an.NamedOf(al.Type()); nn == nil || nn.Obj().Name() != "argParser" {
+				return
+			}
+			var cl *ssa.Function
+			for _, r := range *al.Referrers() {
+				fa, ok := r.(*ssa.FieldAddr)
+				if !ok || an.FieldName(fa.X.Type(), fa.Field) != "FromJSON" {
 					continue
 				}
-				for _, sp := range gd.Specs {
-					vs := sp.(*ast.ValueSpec)
-					if len(vs.Names) != 1 || vs.Names[0].Name != "scalarArgParsers" || len(vs.Values) != 1 {
-						continue
-					}
-					cl, ok := vs.Values[0].(*ast.CompositeLit)
-					if !ok {
-						continue
-					}
-					for _, el := range cl.Elts {
-						kv := el.(*ast.KeyValueExpr)
-						ce, ok := kv.Key.(*ast.CallExpr)
-						if !ok || len(ce.Args) != 1 {
-							continue
-						}
-						keyT := pp.TypesInfo.Types[ce.Args[0]].Type
-						if keyT == nil {
-							continue
-						}
-						n++
-						pos := p.Pos(kv.Pos())
-						o.SitePos(pos)
-						key := keyT.String()
-						wantJSON := "string"
-						if b, ok := keyT.Underlying().(*types.Basic); ok {
-							switch {
-							case b.Info()&types.IsNumeric != 0:
-								wantJSON = "float64"
-							case b.Info()&types.IsBoolean != 0:
-								wantJSON = "bool"
-							}
-						}
-						var asserted []string
-						var conv []string
-						errOnFail := false
-						valueName := "value"
-						ast.Inspect(kv.Value, func(nd ast.Node) bool {
-							if fl, ok := nd.(*ast.FuncLit); ok && fl.Type.Params != nil && len(fl.Type.Params.List) > 0 && len(fl.Type.Params.List[0].Names) > 0 {
-								valueName = fl.Type.Params.List[0].Names[0].Name
-								return false
-							}
-							return true
-						})
-						ast.Inspect(kv.Value, func(nd ast.Node) bool {
-							switch x := nd.(type) {
-							case *ast.TypeAssertExpr:
-								if x.Type != nil {
-									if id, ok := x.X.(*ast.Ident); ok && id.Name == valueName {
-										asserted = append(asserted, exprString(x.Type))
-									}
-								}
-							case *ast.IfStmt:
-								if un, ok := x.Cond.(*ast.UnaryExpr); ok && un.Op == token.NOT {
-									if len(x.Body.List) > 0 {
-										if rs, ok := x.Body.List[len(x.Body.List)-1].(*ast.ReturnStmt); ok && len(rs.Results) == 1 && exprString(rs.Results[0]) != "nil" {
-											errOnFail = true
-										}
-									}
-								}
-							case *ast.CallExpr:
-								// dest.Set(reflect.ValueOf(EXPR).Convert(dest.Type()))
-								if se, ok := x.Fun.(*ast.SelectorExpr); ok && se.Sel.Name == "ValueOf" && len(x.Args) == 1 {
-									if inner, ok := x.Args[0].(*ast.CallExpr); ok && len(inner.Args) == 1 {
-										if tv, ok := pp.TypesInfo.Types[inner.Fun]; ok && tv.IsType() {
-											conv = append(conv, tv.Type.String())
-										}
-									}
-								}
-							}
-							return true
-						})
-						if len(asserted) != 1 || asserted[0] != wantJSON {
-							o.Fail(pos, "the %s argument parser asserts the JSON value to be %v; a %s arrives as %s (a literal and a variable would be treated differently / always rejected)", key, asserted, key, wantJSON)
-						}
-						if !errOnFail {
-							o.Fail(pos, "the %s argument parser does not return an error when the JSON value has the wrong kind", key)
-						}
-						for _, cv := range conv {
-							if cv == key || exceptions[key] == cv {
-								continue
-							}
-							o.Fail(pos, "the %s argument parser converts through %s: values outside %s's range are silently changed before reaching the resolver", key, cv, cv)
-						}
-						if wantJSON == "float64" && key != "float64" && len(conv) == 0 {
-							o.Fail(pos, "the %s argument parser does not convert the float64 to %s", key, key)
+				for _, r2 := range *fa.Referrers() {
+					if st, ok := r2.(*ssa.Store); ok && st.Addr == ssa.Value(fa) {
+						switch x := an.StripConv(st.Val).(type) {
+						case *ssa.Function:
+							cl = x
+						case *ssa.MakeClosure:
+							cl, _ = x.Fn.(*ssa.Function)
 						}
 					}
 				}
 			}
-		}
+			if cl == nil || len(cl.Params) != 2 {
+				return
+			}
+			n++
+			o.Site(i)
+			keyT := mi.X.Type()
+			key := keyT.String()
+			wantJSON := "string"
+			if b, ok := keyT.Underlying().(*types.Basic); ok {
+				switch {
+				case b.Info()&types.IsNumeric != 0:
+					wantJSON = "float64"
+				case b.Info()&types.IsBoolean != 0:
+					wantJSON = "bool"
+				}
+			}
+			value := ssa.Value(cl.Params[0])
+			var asserted []string
+			var tas []*ssa.TypeAssert
+			an.Instrs(cl, func(j ssa.Instruction) {
+				if ta, ok := j.(*ssa.TypeAssert); ok && ta.X == value {
+					asserted = append(asserted, ta.AssertedType.String())
+					tas = append(tas, ta)
+				}
+			})
+			okAssert := len(asserted) > 0
+			for _, a := range asserted {
+				if a != wantJSON {
+					okAssert = false
+				}
+			}
+			if !okAssert {
+				o.FailAt(i, "the %s argument parser asserts the JSON value to be %v; a %s arrives as %s (a literal and a variable would be treated differently / always rejected)", key, asserted, key, wantJSON)
+			}
+			// a failed assertion is an error: with the ok-edges blocked every reachable return carries an error
+			blk := an.NewBlocker()
+			nOk := 0
+			for _, ta := range tas {
+				if !ta.CommaOk {
+					continue
+				}
+				okv := extractOf(ta, 1)
+				for _, ci := range an.CondIfs(cl, func(v ssa.Value) bool { return v == okv }) {
+					blk.AddEdge(ci.If.Block(), ci.True)
+					nOk++
+				}
+			}
+			errOnFail := nOk > 0
+			if errOnFail {
+				r := an.Reach(cl, nil, blk)
+				for _, e := range an.Exits(cl, false) {
+					if ret, ok := e.(*ssa.Return); ok && r[e] && len(ret.Results) == 1 && isConstNil(ret.Results[0]) {
+						errOnFail = false
+					}
+				}
+			}
+			if !errOnFail {
+				o.FailAt(i, "the %s argument parser does not return an error when the JSON value has the wrong kind", key)
+			}
+			// conversions of the asserted value on the way into reflect.ValueOf
+			var conv []string
+			an.Instrs(cl, func(j ssa.Instruction) {
+				cc := an.CallOf(j)
+				if cc == nil {
+					return
+				}
+				if f := an.CalleeFunc(cc); f == nil || f.Name() != "ValueOf" || f.Pkg() == nil || f.Pkg().Path() != "reflect" {
+					return
+				}
+				m2, ok := cc.Args[0].(*ssa.MakeInterface)
+				if !ok {
+					return
+				}
+				if cv, ok := m2.X.(*ssa.Convert); ok {
+					conv = append(conv, cv.Type().String())
+				}
+			})
+			for _, cv := range conv {
+				if cv == key || exceptions[key] == cv {
+					continue
+				}
+				o.FailAt(i, "the %s argument parser converts through %s: values outside %s's range are silently changed before reaching the resolver", key, cv, cv)
+			}
+			if wantJSON == "float64" && key != "float64" && len(conv) == 0 {
+				o.FailAt(i, "the %s argument parser does not convert the float64 to %s", key, key)
+			}
+		})
 		if n < 16 {
 			o.Undecided("found %d scalar argument parsers (expected >= 16)", n)
 		}
